@@ -23,8 +23,8 @@ LIB = 'PyBufrKitError'
 
 
 class Stream(Native):
-    def __init__(self, length, sigs):
-        self.length, self.sigs = length, sorted(sigs)
+    def __init__(self, length, sigs, stops=()):
+        self.length, self.sigs, self.stops = length, sorted(sigs), sorted(stops)
 
     def __repr__(self):
         return 'Stream'
@@ -33,12 +33,31 @@ class Stream(Native):
         if name == 'find':
             sig = args[0]
             start = args[1] if len(args) > 1 else 0
+            if sig == interp.stop_signature and sig != interp.signature:
+                # a search for the stop signature: answered truthfully (message ends and decoys inside bodies)
+                interp.event('find_stop', start)
+                for p in self.stops:
+                    if isinstance(start, int) and p >= start:
+                        return p
+                return -1
             if sig != interp.signature:
                 interp.event('find_other', sig)
                 return -1
             if not isinstance(start, int):
                 raise AnalysisError('generate_bufr_message searches from a non-concrete position %r' % (start,))
+            last = getattr(self, 'last_start', None)
             interp.event('find', start)
+            if last is not None and start <= last and getattr(self, 'last_found', -1) >= 0 and start <= self.last_found:
+                # the search restarts at or before a signature it already found: the scan can never terminate
+                interp.event('rescan', start, self.last_found)
+                raise Raise('ScanDoesNotAdvance', None, 'stream model')
+            self.last_start = start
+            for p in self.sigs:
+                if p >= start:
+                    self.last_found = p
+                    return p
+            self.last_found = -1
+            return -1
             for p in self.sigs:
                 if p >= start:
                     return p
@@ -64,6 +83,7 @@ class Scanner(Interp):
         self.msgs = dict((m.start, m) for m in msgs)
         self.stream = stream
         self.signature = repo.const('constants', 'MESSAGE_START_SIGNATURE')
+        self.stop_signature = repo.const('constants', 'MESSAGE_STOP_SIGNATURE')
 
     def builtin(self, name, args, kwargs, node, frame):
         if name == 'len' and args:
@@ -93,10 +113,11 @@ class Scanner(Interp):
         if text == 'decoder.process':
             span = args[0]
             info_only = kwargs.get('info_only', False)
-            if not (isinstance(span, Obj) and span.cls == 'Span' and span.fields.get('open_end')):
+            if not (isinstance(span, Obj) and span.cls == 'Span'):
                 self.event('decode_arg', repr(span))
                 raise Raise('BitReadError', node, self.where(node, frame))
             st = span.fields['start']
+            avail = span.fields['stop'] - st
             self.event('decode', st, 'info' if info_only else 'full', kwargs.get('start_signature', 'DEFAULT'))
             m = self.msgs.get(st)
             if m is None:
@@ -105,6 +126,10 @@ class Scanner(Interp):
             if out != 'ok':
                 raise Raise(out, node, self.where(node, frame))
             n = m.info_len if info_only else m.length
+            if avail < n:
+                # the decoder was handed less than the message occupies: it runs off the end of its input
+                self.event('truncated_input', st, avail, n)
+                raise Raise('BitReadError', node, self.where(node, frame))
             return Obj('BufrMessage', {'__start': st, '__mode': 'info' if info_only else 'full',
                                        'length': Obj('P', {'value': m.declared}), 'serialized_bytes': Obj('Span', {'start': st, 'stop': st + n}),
                                        'data_category': Obj('P', {'value': m.category}), 'n_subsets': Obj('P', {'value': m.n_subsets})})
@@ -136,7 +161,9 @@ def scenario():
         Msg(345, 35, matched=True),
     ]
     decoys = [130, 320]
-    stream = Stream(395, [m.start for m in msgs] + decoys)
+    # stop signatures: the real end of every message, and the characters '7777' inside the bodies of two messages
+    stops = [m.start + m.length - 4 for m in msgs] + [50, 150]
+    stream = Stream(395, [m.start for m in msgs] + decoys, stops)
     return msgs, stream
 
 
@@ -202,6 +229,11 @@ def rule_r1(repo):
                 tabs = [(e[1], e[2]) for e in r.events if e[0] == 'tables']
                 gexc = None if r.ok else r.exc.cls
                 key = 'generate_bufr_message:%s:%s' % ('info' if info_only else 'full', 'filter' if use_filter else 'nofilter')
+                if gexc == 'ScanDoesNotAdvance':
+                    rs = [e for e in r.events if e[0] == 'rescan']
+                    rr.fail(key + ':search-restart', fi.where, '%s: the signature search restarts at octet %s although the signature at %s was already handled: the '
+                            'same message is found again and again' % (name, rs[0][1] if rs else '?', rs[0][2] if rs else '?'), witness={'scenario': name})
+                    continue
                 if gexc is not None and not (repo.has_cls(gexc) and repo.is_subclass(gexc, LIB)):
                     rr.fail(key + ':foreign-error', fi.where, '%s: the scan ends with %s, which is not a library error' % (name, gexc), witness={'scenario': name})
                     continue
@@ -248,12 +280,9 @@ def rule_r2(repo):
     rr.instance('Decoder.process default start_signature = %s' % d.get('start_signature'))
     if d.get('start_signature') != 'MESSAGE_START_SIGNATURE':
         rr.fail('signature:decoder-default', proc.where, 'Decoder.process searches for %s by default' % d.get('start_signature'))
-    gen = repo.func('decoder', 'generate_bufr_message')
-    finds = [norm(n) for n in ast.walk(gen.node) if isinstance(n, ast.Call) and isinstance(n.func, ast.Attribute) and n.func.attr == 'find']
-    rr.instance('scanner searches with %s' % finds)
-    if finds != ['s.find(MESSAGE_START_SIGNATURE, idx_start)']:
-        rr.fail('signature:scanner', gen.where, 'the scanner searches with %s; expected s.find(MESSAGE_START_SIGNATURE, idx_start)' % finds)
-    rr.require_floor(4)
+    # (that the scanner searches for this constant, from the current position, is decided by the fold in R1: the stream model answers
+    #  only searches for MESSAGE_START_SIGNATURE and reports a search that restarts before a signature already handled)
+    rr.require_floor(3)
     return rr
 
 
